@@ -259,7 +259,7 @@ def run(R):
             R.extra["witness_class:" + f["id"]] = cls
 
     # ---------------------------------------------------------- (a) hand-made transitions
-    for _ in range(1500 if quick else 40000):
+    for _ in range(1500 if quick else 22000):
         os3, ns3, oc3, nc3 = gen_handmade(rng)
         method = rng.choice(["average", "majority", "stride"])
         dtype = rng.choice(["uint8", "uint8", "uint16", "uint32"] + ([] if method == "average" else ["uint64"]))
@@ -273,7 +273,7 @@ def run(R):
         transition(R, case, os3, ns3, oc3, nc3, method, dtype, C, vol)
 
     # ---------------------------------------------------------- (b) generator outputs, whole pyramid in memory
-    for k in range(220 if quick else 6000):
+    for k in range(220 if quick else 3500):
         size, res, target, info = gen_pyramid_input(rng, 2500 if k % 3 else 9000)
         method = rng.choice(["average", "majority", "stride"])
         dtype = rng.choice(["uint8", "uint16", "uint32"] + ([] if method == "average" else ["uint64"]))
@@ -324,7 +324,7 @@ def run(R):
     # ---------------------------------------------------------- (c) real accessors
     layouts = [("deep-gzip", {}), ("flat-gzip", {"flat": True}), ("deep-plain", {"gzip": False}),
                ("flat-plain", {"flat": True, "gzip": False}), ("sharded", {})]
-    for k in range(36 if quick else 600):
+    for k in range(36 if quick else 360):
         lname, opts = layouts[k % len(layouts)]
         method = ["average", "majority", "stride"][k % 3]
         size, res, target, info = gen_pyramid_input(rng, 1500)
